@@ -22,7 +22,7 @@ pub fn scenarios() -> Vec<Scenario> {
         name: "c08-stream",
         gen,
         run,
-        quick_runs: 40_000,
+        quick_runs: 60_000,
         weight: 1,
         rule: "case = (sequence of 1..=8 (quick) / 1..=32 (thorough) valid packets, delivery schedule); non-trivial when the sequence has >= 2 packets; distinct by case hash",
     }]
